@@ -103,7 +103,18 @@ def apply_impl(store, op):
         if t == "s":
             store.store(op[1], op[2], md_dict(op[3], op[4], op[5]))
         elif t == "m":
-            store.store_metadata(op[1], md_dict(op[2], op[3], op[4]))
+            md = md_dict(op[2], op[3], op[4])
+            if op[3] is not None or op[4] is not None:
+                # the read-modify-write idiom: the dictionary handed to store_metadata is the one get_metadata returned (same fields as
+                # before; a store that hands out its own record would let the update reach places it must not)
+                try:
+                    got = store.get_metadata(op[1])
+                except Exception:
+                    got = None
+                if isinstance(got, dict):
+                    got.update(md)
+                    md = got
+            store.store_metadata(op[1], md)
         elif t == "r":
             store.remove(op[1])
         elif t == "d":
